@@ -91,6 +91,27 @@ func vc16_nested() {
 	vreach("end")
 }
 
+// import ... for: only the listed names are imported, in either order of the
+// import statements; the macros of each file keep calling their own siblings
+func vc16_import_for() {
+	s := vsym_string(1)
+	x := "{% macro A %}xA{{ s }}{% end %}"
+	y := "{% macro A %}yA{% end %}{% macro B %}yB{{ A() }}{% end %}{% var V = 3 %}"
+	imports := []string{
+		"{% import \"x.html\" for A %}{% import \"y.html\" for B %}",
+		"{% import \"y.html\" for B %}{% import \"x.html\" for A %}",
+		"{% import \"y.html\" for B, V %}{% import \"x.html\" for A %}",
+	}
+	out, err := vc16_run(Files{"index.html": []byte(imports[vsym_choice(len(imports))] + "{{ A() }}|{{ B() }}"), "x.html": []byte(x), "y.html": []byte(y)}, "index.html", &s)
+	vassert(err == nil, "imports-build-and-run")
+	vassert(out == "xA"+HTMLEscapeForTest(s)+"|yByA", "import-for-imports-only-the-listed-names")
+	vreach("end")
+}
+
+// HTMLEscapeForTest is the reference escaping of a one-byte string in HTML.
+func HTMLEscapeForTest(s string) string { return string(HTMLEscape(s)) }
+
+func vh_c16_import_for_q()     { vc16_import_for() }
 func vh_c16_nested_q()         { vc16_nested() }
 func vh_c16_render_q()         { vc16_render() }
 func vh_c16_import_extends_q() { vc16_import_extends() }
